@@ -433,3 +433,62 @@ impl MainEvent {
 
 #[cfg(test)]
 mod tests;
+
+// Verification hooks: read-only views of private state and direct entry points
+// to crate-private stages. Compiled only with the `verif-hooks` feature.
+#[cfg(feature = "verif-hooks")]
+pub mod verif_hooks {
+    use super::*;
+
+    pub fn wire_signals(event: &MainEvent) -> &[Option<Vec<f64>>; TPC_ANODE_WIRES] {
+        &event.wire_signals
+    }
+    pub fn pad_signals(
+        event: &MainEvent,
+    ) -> &[[Option<Vec<f64>>; TPC_PAD_ROWS]; TPC_PAD_COLUMNS] {
+        &event.pad_signals
+    }
+    // Build an event directly from calibrated signals.
+    pub fn event_from_signals(
+        wires: Vec<(usize, Vec<f64>)>,
+        pads: Vec<(usize, usize, Vec<f64>)>,
+        trigger_timestamp: u32,
+    ) -> Box<MainEvent> {
+        let mut event = Box::new(MainEvent {
+            wire_signals: [(); TPC_ANODE_WIRES].map(|_| None),
+            pad_signals: [(); TPC_PAD_COLUMNS].map(|_| [(); TPC_PAD_ROWS].map(|_| None)),
+            trigger_timestamp,
+        });
+        for (wire, signal) in wires {
+            event.wire_signals[wire] = Some(signal);
+        }
+        for (column, row, signal) in pads {
+            event.pad_signals[column][row] = Some(signal);
+        }
+        event
+    }
+    pub fn pad_deconvolution(signal: &[f64]) -> Vec<f64> {
+        crate::deconvolution::pads::pad_deconvolution(signal)
+    }
+    pub fn contiguous_wire_ranges(
+        wire_signals: &[Option<Vec<f64>>; TPC_ANODE_WIRES],
+    ) -> Vec<(usize, usize)> {
+        contiguous_ranges(wire_signals)
+    }
+    // Exactly what `MainEvent::avalanches` does with the wire signals.
+    pub fn wire_deconvolution(
+        wire_signals: &[Option<Vec<f64>>; TPC_ANODE_WIRES],
+    ) -> Vec<(usize, Vec<f64>)> {
+        let mut inputs = Vec::new();
+        for range in contiguous_ranges(wire_signals) {
+            inputs.extend(wire_range_deconvolution(wire_signals, range));
+        }
+        inputs
+    }
+    pub fn wire_to_pad_column(wire: usize) -> usize {
+        crate::matching::wire_to_pad_column(wire)
+    }
+    pub fn pad_column_to_wires(pad_column: usize) -> std::ops::Range<usize> {
+        crate::matching::pad_column_to_wires(pad_column)
+    }
+}
